@@ -5,7 +5,7 @@ Open Scope list_scope.
 
 Definition alpha_row : alphabet := mk_alphabet ["gorm:row"] ["u1"; "u2"; "u3"].
 
-Lemma exh_row_count : count_ext 3 alpha_row (builtin_steps (a_builtins alpha_row)) = 150192%N.
+Lemma exh_row_count : count_ext 3 alpha_row (builtin_steps (a_builtins alpha_row)) = 152593%N.
 Proof. vm_compute. reflexivity. Qed.
 
 Lemma exh_row : all_ok 3 alpha_row (builtin_steps (a_builtins alpha_row)) = true.
